@@ -197,7 +197,13 @@ func SetFingerprint(f func() uint64) {
 }
 
 // Run executes main under a fresh scheduler and returns when the execution is over.
+// RunSeq counts executions: package-level state of shims (a sync.Pool declared at package level in
+// the code under test) is reset when it is first touched in a new execution, so that every
+// execution starts from the same state.
+var RunSeq int
+
 func Run(opts Options, main func()) Result {
+	RunSeq++
 	s := &Sched{opts: opts, doneGate: newGate(), armStep: -1}
 	if s.opts.MaxSteps == 0 {
 		s.opts.MaxSteps = 400000
